@@ -1333,6 +1333,35 @@ def row_values(a, b, layout):
     return o
 
 
+def f_consolidate(a, b, layout):
+    """consolidation merges adjacent blocks of EQUAL dtype only: two adjacent columns keep their own dtype and cells
+    (layout 0: constructor with consolidate_blocks=True, 1: TypeBlocks.consolidate / Frame.consolidate route, plus the
+    row-wise concatenation of two frames with different layouts, which consolidates each member first)"""
+    import static_frame as sf
+    arr_a, arr_b = base_array(a), base_array(b, variant=1)
+    av, bv = cells(arr_a), cells(arr_b)
+    o = Obs()
+    if layout == 0:
+        f = sf.Frame.from_items((('A', arr_a), ('B', arr_b), ('A2', arr_a)), index=IDX, consolidate_blocks=True)
+    else:
+        f0 = sf.Frame(sf.TypeBlocks.from_blocks([arr_a, arr_b, arr_a]), index=IDX, columns=('A', 'B', 'A2'), own_data=True)
+        f = sf.Frame(f0._blocks.consolidate(), index=IDX, columns=('A', 'B', 'A2'), own_data=True)
+    o.col(av, f['A'].values, 'consolidated col A')
+    o.col(bv, f['B'].values, 'consolidated col B')
+    o.col(av, f['A2'].values, 'consolidated col A2')
+    o.keep(arr_a.dtype, f['A'].dtype, 'A')
+    o.keep(arr_b.dtype, f['B'].dtype, 'B')
+    g1 = sf.Frame(sf.TypeBlocks.from_blocks([arr_a, arr_b]), index=IDX, columns=('A', 'B'), own_data=True)
+    blk = np.empty((3, 1), dtype=arr_a.dtype)
+    blk[:, 0] = arr_a
+    g2 = sf.Frame(sf.TypeBlocks.from_blocks([blk, arr_b]), index=('x', 'y', 'z'), columns=('A', 'B'), own_data=True)
+    r = sf.Frame.from_concat((g1, g2))
+    o.col(bv + bv, r['B'].values, 'from_concat(rows) of two layouts col B')
+    o.col(av + av, r['A'].values, 'from_concat(rows) of two layouts col A')
+    o.keep(arr_b.dtype, r['B'].dtype, 'from_concat B')
+    return o
+
+
 def row_values_grown(a, b, layout):
     """the rows of a FrameGO whose second column was added after construction (layout 0: __setitem__, 1: extend):
     the incrementally maintained row dtype must describe both columns"""
@@ -1550,6 +1579,7 @@ ARRAY_SITES = {
     's_fillna_series': s_fillna_series, 'f_fillna_frame': f_fillna_frame, 's_overlay': s_overlay, 'f_overlay': f_overlay,
     's_insert': s_insert, 'f_insert': f_insert, 'from_records': from_records, 'from_items': from_items,
     'index_values': index_values, 'row_values': row_values, 'row_values_grown': row_values_grown,
+    'f_consolidate': f_consolidate,
 }
 
 
